@@ -35,12 +35,18 @@
 (*                 the same name (a deleted predecessor) is still tracked  *)
 (*   "volUnion"    VolumeUsage.Add only unions a pod's volumes in, keeping *)
 (*                 what the same pod key contributed before                *)
+(*   "dsKept"      updateForPod keeps the daemonSetRequests entry of a pod *)
+(*                 key that is no longer daemonset-owned, and the          *)
+(*                 podDisruptionCosts entry of one that became so          *)
 (* and, as pure spec mutations for the vacuity check (X_Weak*.cfg):        *)
 (*   "skipOldBindings" cleanupOldBindings omitted                          *)
 (*   "hpCarry"         newStateFromNodeClaim drops hostPortUsage           *)
 (*   "markCarry"       newStateFromNode drops markedForDeletion            *)
 (*   "poolOnPid"       cleanupNode forgets updateNodePoolResources         *)
 (*   "noGC"            state.nodeclaimgc does not heal stale seeds         *)
+(*   "lateRead"        newStateFromNode reads the CSINode after it updated *)
+(*                     the pool totals: a failed, retried delivery counts  *)
+(*                     the delta twice                                     *)
 (***************************************************************************)
 EXTENDS ClusterStateF, TLC, Json
 
@@ -51,29 +57,34 @@ CONSTANTS NodeNames, ClaimNames, PodKeys, Pids, Pools,
           MaxLen,       \* generator: length of printed histories
           WithTerm,     \* environment may set InstanceTerminating on a NodeClaim
           WithRestart,  \* Karpenter may restart (empty cache, every object delivered again)
-          PodShapes,    \* shapes the environment may give a pod: {"std"} or {"std", "alt"}
+          PodShapes,    \* shapes the environment may give a pod: a subset of {"std", "alt", "bare"}
+          Start,        \* "empty", or "full": Node n1/i1 + NodeClaim c1/i1 + pods p1, p2 on n1, all observed
+          MaxFail,      \* bound on deliveries that fail at one of their API reads and are retried
           MaxPend       \* generator bias: with this many deliveries outstanding the environment waits for quiescence
 
-VARIABLES api, pend, C, marks, own, gone, seed, nm, nd, ph, h
-vars == <<api, pend, C, marks, own, gone, seed, nm, nd, ph, h>>
-view == <<api, pend, C, marks, own, gone, seed, nm, nd, ph>>
+VARIABLES api, pend, C, marks, own, gone, seed, nm, nd, nf, ph, h
+vars == <<api, pend, C, marks, own, gone, seed, nm, nd, nf, ph, h>>
+view == <<api, pend, C, marks, own, gone, seed, nm, nd, nf, ph>>
 
 Keys == Pids \cup NodeNames
 
 \* ---------------------------------------------------------------- pod shapes (by key)
 \* A pod name can be (re-)created with its standard or its alternative shape (other requests, volume, deletion
 \* cost): "pods recreated under the same name" need not be identical.
-Shapes == {"std", "alt"}
+Shapes == {"std", "alt", "bare"}
 StdAttr == [p \in PodKeys |->
     CASE p = "p1" -> [ds |-> FALSE, cpu |-> 100, mem |-> 64, port |-> "80", vol |-> "va", delCost |-> 134217728, prio |-> 0]
       [] p = "p2" -> [ds |-> TRUE, cpu |-> 50, mem |-> 32, port |-> "-", vol |-> "-", delCost |-> 0, prio |-> 0]
       [] p = "p3" -> [ds |-> FALSE, cpu |-> 200, mem |-> 0, port |-> "81", vol |-> "va", delCost |-> 0 - 268435456, prio |-> 0]
       [] OTHER -> [ds |-> FALSE, cpu |-> 300, mem |-> 128, port |-> "-", vol |-> "vb", delCost |-> 0, prio |-> 33554432]]
 AltVol(v) == IF v = "va" THEN "vb" ELSE "va"
+\* alt: other requests, another host port, the other volume, another deletion cost
+\* bare: no host port, no volume, no deletion cost / priority, other requests, the opposite daemonset ownership
 PodAttr == [p \in PodKeys |-> [sh \in Shapes |->
     IF sh = "std" THEN StdAttr[p]
-    ELSE [StdAttr[p] EXCEPT !.cpu = @ + 10, !.vol = AltVol(@), !.delCost = 268435456]]]
-ShapeOfRec(rec) == IF rec.cpu = StdAttr[rec.name].cpu THEN "std" ELSE "alt"
+    ELSE IF sh = "alt" THEN [StdAttr[p] EXCEPT !.cpu = @ + 10, !.port = "82", !.vol = AltVol(@), !.delCost = 268435456]
+    ELSE [ds |-> ~StdAttr[p].ds, cpu |-> StdAttr[p].cpu + 20, mem |-> 0, port |-> "-", vol |-> "-", delCost |-> 0, prio |-> 0]]]
+ShapeOfRec(rec) == IF rec.cpu = StdAttr[rec.name].cpu THEN "std" ELSE IF rec.cpu = StdAttr[rec.name].cpu + 10 THEN "alt" ELSE "bare"
 NodeCap0 == [cpu |-> 3900, mem |-> 0]      \* what the kubelet reports at registration
 NodeCap1 == [cpu |-> 3900, mem |-> 8000]   \* ... once initialized
 ClaimCap == [cpu |-> 4000, mem |-> 8192]   \* the NodeClaim's promise
@@ -115,8 +126,9 @@ VolsOfMap(m) == UNION {VolNames(p, m[p]) : p \in {q \in PodKeys : m[q] # "none"}
 UpdateForPod(s, p, sh) ==
     LET a == PodAttr[p][sh]
         vol2 == [s.vol EXCEPT ![p] = sh]
-    IN [s EXCEPT !.req[p] = sh, !.dreq[p] = IF a.ds THEN sh ELSE @,
-                 !.cost[p] = IF a.ds THEN @ ELSE IF EvCost(a) > 0 THEN sh ELSE "none",
+        other == IF "dsKept" \in Defects THEN "keep" ELSE "none"     \* the map a pod of this ownership does not belong to
+    IN [s EXCEPT !.req[p] = sh, !.dreq[p] = IF a.ds THEN sh ELSE (IF other = "keep" THEN @ ELSE "none"),
+                 !.cost[p] = IF a.ds THEN (IF other = "keep" THEN @ ELSE "none") ELSE IF EvCost(a) > 0 THEN sh ELSE "none",
                  !.hp[p] = sh, !.vol = vol2,
                  \* VolumeUsage.Add: the pinned tree only unions the new volumes in
                  !.volu = IF "volUnion" \in Defects THEN @ \cup VolNames(p, sh) ELSE VolsOfMap(vol2)]
@@ -242,12 +254,30 @@ View(c) ==
 \* ---------------------------------------------------------------- behaviour
 Step(a, x, y, z) == h' = Append(h, [a |-> a, x |-> x, y |-> y, z |-> z])
 Obj(kind, name) == <<kind, name>>
-Mut(kind, name) == /\ nm < MaxMut /\ nm' = nm + 1 /\ pend' = pend \cup {Obj(kind, name)} /\ UNCHANGED <<C, marks, nd>>
+Mut(kind, name) == /\ nm < MaxMut /\ nm' = nm + 1 /\ pend' = pend \cup {Obj(kind, name)} /\ UNCHANGED <<C, marks, nd, nf>>
 
-Init == /\ api = [nodes |-> [n \in NodeNames |-> NoNode], claims |-> [c \in ClaimNames |-> NoClaim],
-                  pods |-> [p \in PodKeys |-> NoPod]]
-        /\ pend = {} /\ C = C0 /\ marks = {} /\ nm = 0 /\ nd = 0 /\ h = <<>>
-        /\ own = [i \in Pids |-> [node |-> "-", claim |-> "-"]] /\ gone = {} /\ ph = "env" /\ seed = [c \in ClaimNames |-> "-"]
+\* Start = "full": an established managed node - Node n1/i1 (pool a), its NodeClaim c1/i1 and the pods p1, p2 bound to n1,
+\* every object observed.  The history begins with the steps that lead there, so a behaviour stays self-contained;
+\* the mutation budget counts from here, which lets the bounded search reach histories twice as deep around a live node.
+FullPods == {"p1", "p2"} \cap PodKeys
+ApiFull == [nodes |-> [n \in NodeNames |-> IF n = "n1" THEN MkNode("n1", "i1", "a") ELSE NoNode],
+            claims |-> [c \in ClaimNames |-> IF c = "c1" THEN [MkClaim("c1", "a") EXCEPT !.pid = "i1"] ELSE NoClaim],
+            pods |-> [p \in PodKeys |-> IF p \in FullPods THEN MkPod(p, "n1", "std") ELSE NoPod]]
+CFull == UpdateClaimOp(UpdateNodeOp(C0, ApiFull.nodes["n1"], ApiFull.pods), ApiFull.claims["c1"])
+St(a, x, y, z) == [a |-> a, x |-> x, y |-> y, z |-> z]
+HFull == <<St("CreateNode", "n1", "i1", "a"), St("CreateClaim", "c1", "a", "-"), St("SetClaimPid", "c1", "i1", "-")>>
+         \o (IF "p1" \in PodKeys THEN <<St("CreatePod", "p1", "n1", "-")>> ELSE <<>>)
+         \o (IF "p2" \in PodKeys THEN <<St("CreatePod", "p2", "n1", "-")>> ELSE <<>>)
+         \o <<St("Deliver", "Node", "n1", "-"), St("Deliver", "NodeClaim", "c1", "-"), St("Deliver", "ClaimGC", "c1", "-")>>
+         \o (IF "p1" \in PodKeys THEN <<St("Deliver", "Pod", "p1", "-")>> ELSE <<>>)
+         \o (IF "p2" \in PodKeys THEN <<St("Deliver", "Pod", "p2", "-")>> ELSE <<>>)
+Init == /\ api = (IF Start = "full" THEN ApiFull
+                  ELSE [nodes |-> [n \in NodeNames |-> NoNode], claims |-> [c \in ClaimNames |-> NoClaim],
+                        pods |-> [p \in PodKeys |-> NoPod]])
+        /\ pend = {} /\ C = (IF Start = "full" THEN CFull ELSE C0) /\ marks = {} /\ nm = 0 /\ nd = 0 /\ nf = 0
+        /\ h = (IF Start = "full" THEN HFull ELSE <<>>)
+        /\ own = [i \in Pids |-> IF Start = "full" /\ i = "i1" THEN [node |-> "n1", claim |-> "c1"] ELSE [node |-> "-", claim |-> "-"]]
+        /\ gone = {} /\ ph = "env" /\ seed = [c \in ClaimNames |-> "-"]
 
 \* provider ids identify instances: an id is never used by two different Node names / NodeClaim names
 NodeMayUse(n, i) == own[i].node \in {"-", n} /\ \A n2 \in NodeNames \ {n} : ~(api.nodes[n2].ex /\ api.nodes[n2].pid = i)
@@ -287,7 +317,7 @@ CreateClaim(c, pl, sd) ==
     /\ ~api.claims[c].ex /\ c \notin gone
     /\ api' = [api EXCEPT !.claims[c] = MkClaim(c, pl)] /\ UNCHANGED <<own, gone>>
     /\ seed' = (IF sd THEN [seed EXCEPT ![c] = pl] ELSE seed)
-    /\ nm < MaxMut /\ nm' = nm + 1 /\ pend' = pend \cup {Obj("NodeClaim", c), Obj("ClaimGC", c)} /\ UNCHANGED <<C, marks, nd>>
+    /\ nm < MaxMut /\ nm' = nm + 1 /\ pend' = pend \cup {Obj("NodeClaim", c), Obj("ClaimGC", c)} /\ UNCHANGED <<C, marks, nd, nf>>
     /\ Step("CreateClaim", c, pl, IF sd THEN "seed" ELSE "-")
 \* the provisioner's post-create seed: UpdateNodeClaim with the object as it was created
 \* A3 (environment assumption): it lands before the NodeClaim is launched (SetClaimPid waits for it)
@@ -295,7 +325,7 @@ Seed(c) ==
     /\ seed[c] # "-" /\ nm < MaxMut /\ nm' = nm + 1
     /\ C' = UpdateClaimOp(C, MkClaim(c, seed[c])) /\ marks' = marks
     /\ seed' = [seed EXCEPT ![c] = "-"]
-    /\ UNCHANGED <<api, pend, own, gone, nd>> /\ Step("Seed", c, "-", "-")
+    /\ UNCHANGED <<api, pend, own, gone, nd, nf>> /\ Step("Seed", c, "-", "-")
 SetClaimPid(c, pid) ==
     /\ api.claims[c].ex /\ api.claims[c].pid = "" /\ ClaimMayUse(c, pid) /\ seed[c] = "-"
     /\ api' = [api EXCEPT !.claims[c].pid = pid] /\ own' = [own EXCEPT ![pid].claim = c] /\ UNCHANGED <<gone, seed>>
@@ -317,7 +347,7 @@ RemoveClaim(c) ==
 CreatePod(p, n, sh) ==
     /\ ~api.pods[p].ex /\ (n # "" => api.nodes[n].ex)
     /\ api' = [api EXCEPT !.pods[p] = MkPod(p, n, sh)] /\ UNCHANGED <<own, gone, seed>>
-    /\ Mut("Pod", p) /\ Step("CreatePod", p, n, IF sh = "alt" THEN "alt" ELSE "-")
+    /\ Mut("Pod", p) /\ Step("CreatePod", p, n, IF sh = "std" THEN "-" ELSE sh)
 BindPod(p, n) ==
     /\ api.pods[p].ex /\ api.pods[p].node = "" /\ ~api.pods[p].term /\ api.nodes[n].ex
     /\ api' = [api EXCEPT !.pods[p].node = n] /\ UNCHANGED <<own, gone, seed>>
@@ -340,11 +370,11 @@ RemovePod(p) ==
 Mark(k) ==
     /\ nm < MaxMut /\ C.cn[k].ex /\ ~C.cn[k].marked
     /\ C' = MarkOp(C, k) /\ marks' = marks \cup {k} /\ nm' = nm + 1
-    /\ UNCHANGED <<api, pend, own, gone, seed, nd>> /\ Step("Mark", k, "-", "-")
+    /\ UNCHANGED <<api, pend, own, gone, seed, nd, nf>> /\ Step("Mark", k, "-", "-")
 Unmark(k) ==
     /\ nm < MaxMut /\ C.cn[k].ex /\ C.cn[k].marked
     /\ C' = UnmarkOp(C, k) /\ marks' = marks \ {k} /\ nm' = nm + 1
-    /\ UNCHANGED <<api, pend, own, gone, seed, nd>> /\ Step("Unmark", k, "-", "-")
+    /\ UNCHANGED <<api, pend, own, gone, seed, nd, nf>> /\ Step("Unmark", k, "-", "-")
 
 Known(kind, name) == CASE kind = "Node" -> api.nodes[name].ex
                        [] kind = "NodeClaim" -> api.claims[name].ex
@@ -355,7 +385,7 @@ Restart ==
     /\ WithRestart /\ nm < MaxMut /\ nm' = nm + 1
     /\ C' = C0 /\ marks' = {}
     /\ pend' = {o \in Objs : Known(o[1], o[2])} /\ seed' = [c \in ClaimNames |-> "-"]
-    /\ UNCHANGED <<api, own, gone, nd>> /\ Step("Restart", "-", "-", "-")
+    /\ UNCHANGED <<api, own, gone, nd, nf>> /\ Step("Restart", "-", "-", "-")
 
 \* ---- C-actions: the informer controllers reconcile one object (its current version or its absence)
 ReconcileEffect(kind, name) ==
@@ -374,12 +404,34 @@ Deliver(kind, name) ==
     /\ LET r == ReconcileEffect(kind, name)
        IN /\ C' = r[1] /\ marks' = MarksAfter(r[1])
           /\ pend' = IF r[2] THEN pend ELSE pend \ {Obj(kind, name)}    \* NotFound -> requeued, still pending
-    /\ UNCHANGED <<api, own, gone, seed, nm, nd>> /\ Step("Deliver", kind, name, "-")
+    /\ UNCHANGED <<api, own, gone, seed, nm, nd, nf>> /\ Step("Deliver", kind, name, "-")
+\* A delivery one of whose API reads fails with a server error: the reconcile returns the error and is retried (the
+\* object stays pending).  `fk` names the read: own = the Get of the object itself, pods = the pod list of a Node
+\* reconcile, pvc / sc = a PersistentVolumeClaim / StorageClass lookup while resolving pod volumes, csinode = the
+\* CSINode lookup.  Every read precedes every write to shared bookkeeping, so a failed delivery changes nothing
+\* (populateResourceRequests may already have re-bound earlier pods of the list; the retry completes that).
+CountedOn(n) == {p \in PodKeys : api.pods[p].ex /\ api.pods[p].node = n /\ ~api.pods[p].term}
+Fires(kind, name, fk) ==
+    CASE fk = "own" -> TRUE
+      [] kind = "Node" ->
+           /\ api.nodes[name].ex /\ ~(api.nodes[name].pool # "" /\ api.nodes[name].pid = "")
+           /\ (fk \in {"pvc", "sc"} => \E p \in CountedOn(name) : api.pods[p].vol # "-")
+      [] kind = "Pod" ->
+           /\ fk \in {"pvc", "sc"} /\ api.pods[name].ex /\ ~api.pods[name].term /\ api.pods[name].node # ""
+           /\ api.pods[name].vol # "-"
+           /\ C.n2p[api.pods[name].node] # "-" /\ C.cn[C.n2p[api.pods[name].node]].ex
+      [] OTHER -> FALSE
+FaultKinds(kind) == IF kind = "Node" THEN {"own", "pods", "pvc", "sc", "csinode"} ELSE IF kind = "Pod" THEN {"own", "pvc", "sc"} ELSE {"own"}
+FailDeliver(kind, name, fk) ==
+    /\ nf < MaxFail /\ Obj(kind, name) \in pend /\ (kind = "ClaimGC" => seed[name] = "-") /\ Fires(kind, name, fk)
+    /\ C' = (IF "lateRead" \in Defects /\ kind = "Node" /\ fk = "csinode"
+             THEN [C EXCEPT !.pool = UpdateNodeOp(C, api.nodes[name], api.pods).pool] ELSE C)
+    /\ nf' = nf + 1 /\ UNCHANGED <<api, pend, marks, own, gone, seed, nm, nd>> /\ Step("Deliver", kind, name, "fail:" \o fk)
 Redeliver(kind, name) ==
     /\ nd < MaxDup /\ Obj(kind, name) \notin pend /\ Known(kind, name)
     /\ LET r == ReconcileEffect(kind, name)
        IN /\ C' = r[1] /\ marks' = MarksAfter(r[1]) /\ ~r[2]
-    /\ nd' = nd + 1 /\ UNCHANGED <<api, own, gone, seed, nm, pend>> /\ Step("Deliver", kind, name, "dup")
+    /\ nd' = nd + 1 /\ UNCHANGED <<api, own, gone, seed, nm, nf, pend>> /\ Step("Deliver", kind, name, "dup")
 
 EnvNext ==
     \/ \E n \in NodeNames : \/ \E pid \in Pids \cup {""}, pl \in Pools \cup {""} : CreateNode(n, pid, pl)
@@ -398,7 +450,8 @@ EnvNext ==
 \* (ph = "drain") until none is, unless all that is left are pods waiting for a node the cache does not know.
 Blocked(o) == (o[1] = "Pod" /\ ReconcileEffect(o[1], o[2])[2]) \/ (o[1] = "ClaimGC" /\ seed[o[2]] # "-")
 EnvOK == ph = "env" \/ \A o \in pend : Blocked(o)
-DeliverNext == \E o \in Objs : Deliver(o[1], o[2]) \/ (ph = "env" /\ Redeliver(o[1], o[2]))
+DeliverNext == \E o \in Objs : \/ Deliver(o[1], o[2]) \/ (ph = "env" /\ Redeliver(o[1], o[2]))
+                               \/ \E fk \in FaultKinds(o[1]) : FailDeliver(o[1], o[2], fk)
 Next == /\ Len(h) < MaxLen /\ ((EnvOK /\ EnvNext) \/ DeliverNext)
         /\ ph' = IF pend' = {} THEN "env" ELSE IF Cardinality(pend') >= MaxPend THEN "drain" ELSE ph
 Spec == Init /\ [][Next]_vars
